@@ -1,5 +1,6 @@
 import NxModel.Prudp.L1Crypto
 import NxModel.DriverUtil
+import NxModel.Prudp.Established
 /-!
 # driver for the L1 endpoint model (client transport / server transport), shared by C02, C04–C07
 
@@ -16,6 +17,7 @@ All times are ticks of 2^-30 s. One line in, one line out; outputs of an op are 
   advance <ep> <t>
   send <ep> <t> <conn> <sub> <hex> | sendu <ep> <t> <conn> <hex> | close|disconnect|aexit|done <ep> <t> <conn>
   state <ep> <conn>
+  est <cli ep> <srv ep> <conn>                      `establishedB` of the two model endpoints, per substream 0..maxSub: "<sub>:<c->s><s->c>"
   conn = `c` (the client transport's connection) or `ip:port:sport:stype` (a server-side connection)
 -/
 open Nx Nx.Prudp Nx.L1
@@ -248,6 +250,17 @@ def step (st : St) (line : String) : St × String :=
     match lookupS ep st.eps, t.toNat?, fromHex hex with
     | some e, some now, some data => withConn st ep e conn (fun env c => c.sendUnreliable env now data)
     | _, _, _ => (st, "bad-op")
+  | ["est", cep, sep, conn] =>
+    match lookupS cep st.eps, lookupS sep st.eps with
+    | some ce, some se =>
+      match connOf ce "c", connOf se conn with
+      | some c, some cs =>
+        let bit (b : Bool) : String := if b then "1" else "0"
+        let one (sub : Nat) : String :=
+          s!"{sub}:{bit (establishedB sub (c.counters[sub]?.getD 70000) c cs)}{bit (establishedB sub (cs.counters[sub]?.getD 70000) cs c)}"
+        (st, "est " ++ " ".intercalate ((List.range (c.maxSub + 1)).map one))
+      | _, _ => (st, "est -")
+    | _, _ => (st, "bad-op")
   | [op, ep, t, conn] =>
     match lookupS ep st.eps, t.toNat? with
     | some e, some now =>
